@@ -1,19 +1,1095 @@
-use wf_harness::{catch, silence_panics};
-use winter_math::{fields::f128::BaseElement as B, polynom, FieldElement, get_power_series, batch_inversion};
+//! C20 harness: polynomial arithmetic (winter_math::polynom) and the serial math utils
+//! (get_power_series, get_power_series_with_offset, add_in_place, mul_acc, batch_inversion).
+//!   c20 corr <seed> <n>      -> lines "<field> <op> <args..> => <impl result>" (protocol: ocaml/c20_driver.ml);
+//!                               stderr: "dist <op>=<count> ... panic=<count> total=<count>"
+//!   c20 falsify <seed> <n>   -> JSON lines, one per identity violated (oracle: schoolbook reference code in this
+//!                               file + u128 modular arithmetic; independent of the Coq model and of polynom/*);
+//!                               stderr: "evaluations=<n> failures=<k>"
+use std::collections::BTreeMap;
+use std::panic::AssertUnwindSafe;
+
+use wf_harness::{catch, jstr, prng::Rng, refmath::*, silence_panics, watchdog::{self, Progress}};
+use winter_math::{
+    add_in_place, batch_inversion,
+    fields::{f128, f62, f64, CubeExtension, QuadExtension},
+    get_power_series, get_power_series_with_offset, mul_acc, polynom, ExtensionOf, FieldElement, StarkField,
+};
+
+const M64: u128 = 0xFFFF_FFFF_0000_0001;
+const M62: u128 = 4611624995532046337;
+const M128: u128 = 340282366920938463463374557953744961537;
+/// "all entries zero" marker for the number of zero leading coefficients
+const ALL: usize = usize::MAX;
+
+trait BF: StarkField {
+    const P: u128;
+    const NAME: &'static str;
+    fn fu(v: u128) -> Self;
+    fn tu(&self) -> u128;
+}
+impl BF for f64::BaseElement {
+    const P: u128 = M64;
+    const NAME: &'static str = "f64";
+    fn fu(v: u128) -> Self { Self::new((v % M64) as u64) }
+    fn tu(&self) -> u128 { self.as_int() as u128 }
+}
+impl BF for f62::BaseElement {
+    const P: u128 = M62;
+    const NAME: &'static str = "f62";
+    fn fu(v: u128) -> Self { Self::new((v % M62) as u64) }
+    fn tu(&self) -> u128 { self.as_int() as u128 }
+}
+impl BF for f128::BaseElement {
+    const P: u128 = M128;
+    const NAME: &'static str = "f128";
+    fn fu(v: u128) -> Self { Self::new(v % M128) }
+    fn tu(&self) -> u128 { self.as_int() }
+}
+
+// ================================================================================================
+// correspondence: cases
+// ================================================================================================
+type V = Vec<u128>;
+
+#[derive(Clone)]
+enum Op {
+    Eval(V, u128),
+    EvalMany(V, V),
+    Add(V, V),
+    Sub(V, V),
+    Mul(V, V),
+    MulByScalar(V, u128),
+    Div(V, V),
+    SynDiv(V, usize, u128),
+    SynDivInPlace(V, usize, u128),
+    SynDivRoots(V, V),
+    DegreeOf(V),
+    Rlz(V),
+    FromRoots(V),
+    Interp(V, V, bool),
+    /// N, nx, ny, xs_flat, ys_flat
+    InterpBatch(usize, usize, usize, V, V),
+    Pow(u128, usize),
+    PowOff(u128, u128, usize),
+    AddInPlace(V, V),
+    MulAcc(V, V, u128),
+    BatchInv(V),
+}
+
+fn hv(v: &[u128]) -> String {
+    if v.is_empty() {
+        "-".into()
+    } else {
+        v.iter().map(|x| format!("{:x}", x)).collect::<Vec<_>>().join(",")
+    }
+}
+
+impl Op {
+    fn name(&self) -> &'static str {
+        match self {
+            Op::Eval(..) => "eval",
+            Op::EvalMany(..) => "eval_many",
+            Op::Add(..) => "add",
+            Op::Sub(..) => "sub",
+            Op::Mul(..) => "mul",
+            Op::MulByScalar(..) => "mul_by_scalar",
+            Op::Div(..) => "div",
+            Op::SynDiv(..) => "syn_div",
+            Op::SynDivInPlace(..) => "syn_div_in_place",
+            Op::SynDivRoots(..) => "syn_div_roots_in_place",
+            Op::DegreeOf(..) => "degree_of",
+            Op::Rlz(..) => "remove_leading_zeros",
+            Op::FromRoots(..) => "poly_from_roots",
+            Op::Interp(..) => "interpolate",
+            Op::InterpBatch(..) => "interpolate_batch",
+            Op::Pow(..) => "get_power_series",
+            Op::PowOff(..) => "get_power_series_with_offset",
+            Op::AddInPlace(..) => "add_in_place",
+            Op::MulAcc(..) => "mul_acc",
+            Op::BatchInv(..) => "batch_inversion",
+        }
+    }
+
+    fn args(&self) -> String {
+        let dbg = cfg!(debug_assertions) as u8;
+        match self {
+            Op::Eval(p, x) => format!("{} {:x}", hv(p), x),
+            Op::EvalMany(p, xs) => format!("{} {}", hv(p), hv(xs)),
+            Op::Add(a, b) | Op::Sub(a, b) | Op::Mul(a, b) | Op::Div(a, b) | Op::AddInPlace(a, b) | Op::SynDivRoots(a, b) => {
+                format!("{} {}", hv(a), hv(b))
+            }
+            Op::MulByScalar(p, k) => format!("{} {:x}", hv(p), k),
+            Op::SynDiv(p, a, b) | Op::SynDivInPlace(p, a, b) => format!("{} {} {:x}", hv(p), a, b),
+            Op::DegreeOf(p) | Op::Rlz(p) | Op::FromRoots(p) | Op::BatchInv(p) => hv(p),
+            Op::Interp(xs, ys, rlz) => format!("{} {} {} {}", dbg, hv(xs), hv(ys), *rlz as u8),
+            Op::InterpBatch(n, nx, ny, xs, ys) => format!("{} {} {} {} {} {}", dbg, n, nx, ny, hv(xs), hv(ys)),
+            Op::Pow(b, n) => format!("{:x} {}", b, n),
+            Op::PowOff(b, s, n) => format!("{:x} {:x} {}", b, s, n),
+            Op::MulAcc(a, b, c) => format!("{} {} {:x}", hv(a), hv(b), c),
+        }
+    }
+}
+
+fn vf<F: BF>(v: &[u128]) -> Vec<F> {
+    v.iter().map(|&x| F::fu(x)).collect()
+}
+fn sv<F: BF>(v: &[F]) -> String {
+    if v.is_empty() {
+        "-".into()
+    } else {
+        v.iter().map(|e| format!("{:x}", e.tu())).collect::<Vec<_>>().join(",")
+    }
+}
+fn rv<F: BF>(r: Result<Vec<F>, String>) -> String {
+    match r {
+        Ok(v) => sv(&v),
+        Err(_) => "panic".into(),
+    }
+}
+
+fn interp_batch_n<F: BF, const N: usize>(nx: usize, ny: usize, xs: &[u128], ys: &[u128]) -> String {
+    let xa: Vec<[F; N]> = (0..nx).map(|i| core::array::from_fn(|j| F::fu(xs[i * N + j]))).collect();
+    let ya: Vec<[F; N]> = (0..ny).map(|i| core::array::from_fn(|j| F::fu(ys[i * N + j]))).collect();
+    match catch(AssertUnwindSafe(|| polynom::interpolate_batch::<F, N>(&xa, &ya))) {
+        Ok(v) if v.is_empty() => "-".into(),
+        Ok(v) => v
+            .iter()
+            .map(|p| p.iter().map(|e| format!("{:x}", e.tu())).collect::<Vec<_>>().join(","))
+            .collect::<Vec<_>>()
+            .join(";"),
+        Err(_) => "panic".into(),
+    }
+}
+
+/// calls the real crate function; every call runs under `catch`
+fn exec<F: BF>(op: &Op) -> String {
+    macro_rules! c {
+        ($e:expr) => {
+            catch(AssertUnwindSafe(|| $e))
+        };
+    }
+    match op {
+        Op::Eval(p, x) => {
+            let (p, x) = (vf::<F>(p), F::fu(*x));
+            match c!(polynom::eval(&p, x)) {
+                Ok(v) => format!("{:x}", v.tu()),
+                Err(_) => "panic".into(),
+            }
+        }
+        Op::EvalMany(p, xs) => {
+            let (p, xs) = (vf::<F>(p), vf::<F>(xs));
+            rv(c!(polynom::eval_many(&p, &xs)))
+        }
+        Op::Add(a, b) => {
+            let (a, b) = (vf::<F>(a), vf::<F>(b));
+            rv(c!(polynom::add(&a, &b)))
+        }
+        Op::Sub(a, b) => {
+            let (a, b) = (vf::<F>(a), vf::<F>(b));
+            rv(c!(polynom::sub(&a, &b)))
+        }
+        Op::Mul(a, b) => {
+            let (a, b) = (vf::<F>(a), vf::<F>(b));
+            rv(c!(polynom::mul(&a, &b)))
+        }
+        Op::MulByScalar(p, k) => {
+            let (p, k) = (vf::<F>(p), F::fu(*k));
+            rv(c!(polynom::mul_by_scalar(&p, k)))
+        }
+        Op::Div(a, b) => {
+            let (a, b) = (vf::<F>(a), vf::<F>(b));
+            rv(c!(polynom::div(&a, &b)))
+        }
+        Op::SynDiv(p, a, b) => {
+            let (p, b) = (vf::<F>(p), F::fu(*b));
+            rv(c!(polynom::syn_div(&p, *a, b)))
+        }
+        Op::SynDivInPlace(p, a, b) => {
+            let (p, b) = (vf::<F>(p), F::fu(*b));
+            rv(c!({
+                let mut q = p.clone();
+                polynom::syn_div_in_place(&mut q, *a, b);
+                q
+            }))
+        }
+        Op::SynDivRoots(p, roots) => {
+            let (p, roots) = (vf::<F>(p), vf::<F>(roots));
+            rv(c!({
+                let mut q = p.clone();
+                polynom::syn_div_roots_in_place(&mut q, &roots);
+                q
+            }))
+        }
+        Op::DegreeOf(p) => {
+            let p = vf::<F>(p);
+            match c!(polynom::degree_of(&p)) {
+                Ok(d) => format!("{}", d),
+                Err(_) => "panic".into(),
+            }
+        }
+        Op::Rlz(p) => {
+            let p = vf::<F>(p);
+            rv(c!(polynom::remove_leading_zeros(&p)))
+        }
+        Op::FromRoots(xs) => {
+            let xs = vf::<F>(xs);
+            rv(c!(polynom::poly_from_roots(&xs)))
+        }
+        Op::Interp(xs, ys, rlz) => {
+            let (xs, ys) = (vf::<F>(xs), vf::<F>(ys));
+            rv(c!(polynom::interpolate(&xs, &ys, *rlz)))
+        }
+        Op::InterpBatch(n, nx, ny, xs, ys) => match n {
+            0 => interp_batch_n::<F, 0>(*nx, *ny, xs, ys),
+            1 => interp_batch_n::<F, 1>(*nx, *ny, xs, ys),
+            2 => interp_batch_n::<F, 2>(*nx, *ny, xs, ys),
+            3 => interp_batch_n::<F, 3>(*nx, *ny, xs, ys),
+            4 => interp_batch_n::<F, 4>(*nx, *ny, xs, ys),
+            8 => interp_batch_n::<F, 8>(*nx, *ny, xs, ys),
+            _ => unreachable!("N not instantiated"),
+        },
+        Op::Pow(b, n) => {
+            let b = F::fu(*b);
+            rv(c!(get_power_series(b, *n)))
+        }
+        Op::PowOff(b, s, n) => {
+            let (b, s) = (F::fu(*b), F::fu(*s));
+            rv(c!(get_power_series_with_offset(b, s, *n)))
+        }
+        Op::AddInPlace(a, b) => {
+            let (a, b) = (vf::<F>(a), vf::<F>(b));
+            rv(c!({
+                let mut q = a.clone();
+                add_in_place(&mut q, &b);
+                q
+            }))
+        }
+        Op::MulAcc(a, b, cc) => {
+            let (a, b, cc) = (vf::<F>(a), vf::<F>(b), F::fu(*cc));
+            rv(c!({
+                let mut q = a.clone();
+                mul_acc::<F, F>(&mut q, &b, cc);
+                q
+            }))
+        }
+        Op::BatchInv(v) => {
+            let v = vf::<F>(v);
+            rv(c!(batch_inversion(&v)))
+        }
+    }
+}
+
+// ================================================================================================
+// correspondence: generators (u128 residues; the polynomial helpers below use refmath only)
+// ================================================================================================
+struct G {
+    r: Rng,
+    p: u128,
+}
+
+fn umul(a: &[u128], b: &[u128], p: u128) -> V {
+    if a.is_empty() || b.is_empty() {
+        return vec![];
+    }
+    let mut out = vec![0u128; a.len() + b.len() - 1];
+    for (i, x) in a.iter().enumerate() {
+        for (j, y) in b.iter().enumerate() {
+            out[i + j] = addmod(out[i + j], mulmod(*x, *y, p), p);
+        }
+    }
+    out
+}
+fn uadd(a: &[u128], b: &[u128], p: u128) -> V {
+    (0..a.len().max(b.len()))
+        .map(|i| addmod(*a.get(i).unwrap_or(&0), *b.get(i).unwrap_or(&0), p))
+        .collect()
+}
+fn ueval(c: &[u128], x: u128, p: u128) -> u128 {
+    c.iter().rev().fold(0u128, |acc, k| addmod(mulmod(acc, x, p), *k, p))
+}
+
+impl G {
+    fn pool(&self) -> [u128; 10] {
+        let p = self.p;
+        [0, 1, 2, p - 1, p - 2, (p - 1) / 2, 3, 5, 7, (p + 1) / 2]
+    }
+    fn elem(&mut self) -> u128 {
+        match self.r.below(3) {
+            0 => {
+                let pl = self.pool();
+                *self.r.pick(&pl)
+            }
+            _ => self.r.next_u128() % self.p,
+        }
+    }
+    fn nz(&mut self) -> u128 {
+        loop {
+            let e = self.elem();
+            if e != 0 {
+                return e;
+            }
+        }
+    }
+    fn rnd(&mut self) -> u128 {
+        1 + self.r.next_u128() % (self.p - 1)
+    }
+    /// `l` coefficients; the `hz` highest are zero (ALL: every one), the `lz` lowest are zero,
+    /// the coefficients next to the zero runs are non-zero
+    fn shape(&mut self, l: usize, hz: usize, lz: usize) -> V {
+        if hz == ALL || hz >= l {
+            return vec![0; l];
+        }
+        let mut v: V = (0..l).map(|_| self.elem()).collect();
+        let top = l - hz;
+        for x in v.iter_mut().skip(top) {
+            *x = 0;
+        }
+        v[top - 1] = self.nz();
+        for x in v.iter_mut().take(lz.min(top - 1)) {
+            *x = 0;
+        }
+        if lz < top - 1 {
+            v[lz] = self.nz();
+        }
+        v
+    }
+    fn vec(&mut self, l: usize) -> V {
+        self.shape(l, 0, 0)
+    }
+    fn nzvec(&mut self, l: usize) -> V {
+        (0..l).map(|_| self.nz()).collect()
+    }
+    /// n pairwise distinct residues; `zero_at`: position that holds 0 (no zero otherwise)
+    fn distinct(&mut self, n: usize, zero_at: Option<usize>) -> V {
+        let mut v: V = Vec::with_capacity(n);
+        while v.len() < n {
+            let e = if self.r.chance(1, 4) { self.nz() } else { self.rnd() };
+            if !v.contains(&e) {
+                v.push(e);
+            }
+        }
+        if let Some(k) = zero_at {
+            if k < n {
+                v[k] = 0;
+            }
+        }
+        v
+    }
+    /// x^a - b
+    fn xa_minus_b(&self, a: usize, b: u128) -> V {
+        let mut d = vec![0u128; a + 1];
+        d[0] = submod(0, b, self.p);
+        d[a] = 1;
+        d
+    }
+    fn roots_poly(&self, roots: &[u128]) -> V {
+        let mut d = vec![1u128];
+        for r in roots {
+            d = umul(&d, &[submod(0, *r, self.p), 1], self.p);
+        }
+        d
+    }
+    /// dividend/divisor with deg a = dega, deg b = degb, `pa`/`pb` zero leading coefficients; exact: remainder 0
+    fn div_pair(&mut self, dega: usize, degb: usize, pa: usize, pb: usize, exact: bool) -> (V, V) {
+        let p = self.p;
+        let mut b = self.vec(degb + 1);
+        let q = self.vec(dega - degb + 1);
+        let mut a = umul(&q, &b, p);
+        if !exact && degb > 0 {
+            let r = self.vec(degb);
+            a = uadd(&a, &r, p);
+        }
+        a.extend(std::iter::repeat(0).take(pa));
+        b.extend(std::iter::repeat(0).take(pb));
+        (a, b)
+    }
+}
+
+const SHAPES: [(usize, usize, usize); 36] = [
+    (0, 0, 0), (1, 0, 0), (1, ALL, 0), (2, 0, 0), (2, 1, 0), (2, 0, 1), (2, ALL, 0), (3, 0, 0), (3, 1, 0),
+    (3, 2, 0), (3, 0, 1), (3, 0, 2), (3, 1, 1), (3, ALL, 0), (7, 0, 0), (7, 1, 0), (7, 2, 1), (7, 0, 2),
+    (7, ALL, 0), (8, 0, 0), (8, 1, 1), (8, 2, 2), (8, 2, 0), (8, ALL, 0), (9, 0, 0), (9, 1, 2), (9, 2, 0),
+    (9, 0, 1), (63, 0, 0), (63, 1, 0), (64, 0, 0), (64, 2, 1), (64, ALL, 0), (65, 0, 0), (65, 0, 2), (65, 1, 1),
+];
+
+/// Deterministic enumeration of the boundary classes (independent of n).  `lvl`: 2 = f64 (everything), 1 = f62
+/// (every class, fewer repetitions of the pair/mask enumerations), 0 = f128 (sub-enumeration: the extracted model
+/// is ~4x slower there).  `thorough`: adds the large `mul` / `interpolate` cases.
+fn boundary(g: &mut G, lvl: u8, thorough: bool, out: &mut Vec<Op>) {
+    let p = g.p;
+    let full = lvl >= 1;
+    let top = lvl >= 2;
+    let sh: Vec<(usize, usize, usize)> =
+        SHAPES.iter().enumerate().filter(|(i, s)| full || i % 3 == 0 || s.0 == 0).map(|(_, s)| *s).collect();
+    let xs_cycle = |g: &mut G, i: usize| match i % 6 {
+        0 => 0,
+        1 => 1,
+        2 => p - 1,
+        4 => 2,
+        _ => g.rnd(),
+    };
+
+    // ---- degree_of / remove_leading_zeros / eval / eval_many / mul_by_scalar
+    for (i, &(l, hz, lz)) in sh.iter().enumerate() {
+        let v = g.shape(l, hz, lz);
+        out.push(Op::DegreeOf(v.clone()));
+        out.push(Op::Rlz(v.clone()));
+        let x = xs_cycle(g, i);
+        out.push(Op::Eval(v.clone(), x));
+        if i % 3 == 0 {
+            let nx = [0usize, 1, 3, 8][(i / 3) % 4];
+            let mut xs = g.vec(nx);
+            if nx >= 3 {
+                xs[1] = 0;
+            }
+            out.push(Op::EvalMany(v.clone(), xs));
+        }
+        if i % 2 == 0 {
+            let k = [0, 1, p - 1, g.rnd()][(i / 2) % 4];
+            out.push(Op::MulByScalar(v, k));
+        }
+    }
+    // ---- add / sub: equal and unequal lengths, both ways, zero leading coefficients
+    let pairs: [((usize, usize, usize), (usize, usize, usize)); 17] = [
+        ((0, 0, 0), (0, 0, 0)), ((0, 0, 0), (1, 0, 0)), ((1, 0, 0), (0, 0, 0)), ((1, 0, 0), (1, 0, 0)),
+        ((2, 0, 0), (3, 0, 0)), ((3, 0, 0), (2, 0, 0)), ((7, 0, 0), (8, 1, 0)), ((8, 0, 0), (8, 0, 0)),
+        ((9, 2, 1), (7, 0, 0)), ((0, 0, 0), (9, 0, 0)), ((9, 0, 0), (0, 0, 0)), ((63, 0, 0), (65, 0, 0)),
+        ((65, 1, 0), (64, 0, 0)), ((64, 0, 0), (64, 0, 0)), ((3, 2, 0), (3, 0, 0)), ((8, 1, 0), (8, 1, 0)),
+        ((8, ALL, 0), (3, 0, 0)),
+    ];
+    for (i, (sa, sb)) in pairs.iter().enumerate() {
+        if !full && i % 2 == 1 {
+            continue;
+        }
+        let a = g.shape(sa.0, sa.1, sa.2);
+        let b = g.shape(sb.0, sb.1, sb.2);
+        out.push(Op::Add(a.clone(), b.clone()));
+        out.push(Op::Sub(a.clone(), b.clone()));
+        if i == 7 {
+            // a - a and a + (-a)
+            out.push(Op::Sub(a.clone(), a.clone()));
+            let na: V = a.iter().map(|x| submod(0, *x, p)).collect();
+            out.push(Op::Add(a, na));
+        }
+    }
+    // ---- mul
+    let s7: &[usize] = if top { &[0, 1, 2, 3, 7, 8, 9] } else if full { &[0, 1, 2, 3, 8, 9] } else { &[0, 1, 2, 3, 8] };
+    for &la in s7 {
+        for &lb in s7 {
+            let (a, b) = (g.vec(la), g.vec(lb));
+            out.push(Op::Mul(a, b));
+        }
+    }
+    for (sa, sb) in [
+        ((3usize, 1usize, 0usize), (3usize, 0usize, 0usize)), ((3, 2, 0), (2, 1, 0)), ((8, ALL, 0), (3, 0, 0)),
+        ((1, ALL, 0), (1, ALL, 0)), ((7, 1, 1), (9, 2, 0)), ((2, 0, 1), (2, 0, 1)),
+    ] {
+        let a = g.shape(sa.0, sa.1, sa.2);
+        let b = g.shape(sb.0, sb.1, sb.2);
+        out.push(Op::Mul(a, b));
+    }
+    if thorough {
+        for la in [63usize, 64, 65] {
+            for lb in [1usize, 2, 3] {
+                let (a, b) = (g.vec(la), g.vec(lb));
+                out.push(if (la + lb) % 2 == 0 { Op::Mul(a, b) } else { Op::Mul(b, a) });
+            }
+        }
+        if full {
+            let (a, b) = (g.vec(1025), g.vec(2));
+            out.push(Op::Mul(a, b));
+            let (a, b) = (g.vec(2), g.vec(1024));
+            out.push(Op::Mul(a, b));
+        }
+    }
+    // ---- div: valid classes
+    let dd: &[(usize, usize)] = if top {
+        &[(0, 0), (1, 0), (1, 1), (2, 1), (3, 1), (3, 3), (7, 3), (8, 4), (9, 8), (8, 0), (16, 7), (64, 1), (33, 32)]
+    } else {
+        &[(0, 0), (1, 1), (2, 1), (3, 3), (8, 4), (9, 8), (8, 0), (16, 7)]
+    };
+    for (i, &(da, db)) in dd.iter().enumerate() {
+        for exact in [true, false] {
+            let (pa, pb) = [(0, 0), (1, 0), (0, 1), (2, 2), (0, 2), (2, 0)][(i + exact as usize) % 6];
+            let (a, b) = g.div_pair(da, db, pa, pb, exact);
+            out.push(Op::Div(a, b));
+        }
+    }
+    {
+        let (a, b) = (g.vec(6), g.vec(6));
+        out.push(Op::Div(a, b)); // same degree, random
+        let c = g.nz();
+        out.push(Op::Div(vec![0, 0, 0], vec![c])); // all-zero dividend, constant divisor
+        out.push(Op::Div(vec![0], vec![c]));
+        out.push(Op::Div(vec![], vec![c])); // empty dividend: Ok []
+        out.push(Op::Div(vec![], vec![c, 0])); // divisor of degree 0 with a zero leading coefficient
+        let b1 = g.vec(2);
+        out.push(Op::Div(vec![0, 0, 0], b1.clone())); // panic: deg b > deg a (a all-zero)
+        out.push(Op::Div(vec![], b1.clone())); // panic: deg b > deg a (a empty)
+        let a = g.vec(4);
+        out.push(Op::Div(a.clone(), vec![])); // panic: b empty
+        out.push(Op::Div(vec![], vec![])); // panic: b empty
+        out.push(Op::Div(a.clone(), vec![0])); // panic: b = [0]
+        out.push(Op::Div(a.clone(), vec![0, 0, 0])); // panic: b all zeros
+        out.push(Op::Div(vec![], vec![0])); // panic
+        out.push(Op::Div(vec![0, 0], vec![0, 0])); // panic
+        let b = g.vec(5);
+        out.push(Op::Div(a.clone(), b)); // panic: deg b > deg a
+        let b = g.shape(6, 2, 0);
+        out.push(Op::Div(a.clone(), b)); // len b > len a but deg b = deg a: valid
+        let (a2, b2) = (g.shape(5, 2, 0), g.vec(4));
+        out.push(Op::Div(a2, b2)); // panic: deg a = 2 < deg b = 3 although len a > len b
+    }
+    // ---- syn_div / syn_div_in_place
+    let aa: &[usize] = if full { &[1, 2, 3, 4, 7] } else { &[1, 2, 4] };
+    let mut k = 0usize;
+    for &a in aa {
+        for bk in 0..3 {
+            for len in [a + 1, a + 2, 2 * a + 1] {
+                let b = match bk {
+                    0 => 1,
+                    1 => p - 1,
+                    _ => g.rnd(),
+                };
+                k += 1;
+                let pv = if k % 2 == 0 {
+                    // exactly divisible by x^a - b
+                    let s = g.vec(len - a);
+                    let d = g.xa_minus_b(a, b);
+                    umul(&s, &d, p)
+                } else {
+                    g.vec(len)
+                };
+                out.push(Op::SynDiv(pv.clone(), a, b));
+                if k % 3 == 0 {
+                    out.push(Op::SynDivInPlace(pv, a, b));
+                }
+            }
+        }
+    }
+    {
+        let pv = g.vec(5);
+        let b = g.rnd();
+        for (a, b) in [(0usize, b), (4, b), (5, b), (6, b), (1, 0), (2, 0), (4, 1), (5, 1), (0, 0), (0, 1)] {
+            out.push(Op::SynDiv(pv.clone(), a, b));
+            out.push(Op::SynDivInPlace(pv.clone(), a, b));
+        }
+        out.push(Op::SynDiv(vec![], 1, b));
+        out.push(Op::SynDivInPlace(vec![], 1, 1));
+        out.push(Op::SynDiv(vec![g.nz()], 1, b));
+        out.push(Op::SynDiv(g.shape(8, 3, 1), 2, b));
+        out.push(Op::SynDivInPlace(g.shape(8, ALL, 0), 3, 1));
+    }
+    // ---- syn_div_roots_in_place
+    for m in [1usize, 2, 3] {
+        for (j, len) in [m + 1, m + 3, 9].into_iter().enumerate() {
+            let roots = g.nzvec(m);
+            let pv = if (m + j) % 2 == 0 {
+                let s = g.vec(len - m);
+                umul(&s, &g.roots_poly(&roots), p)
+            } else {
+                g.vec(len)
+            };
+            out.push(Op::SynDivRoots(pv, roots));
+        }
+    }
+    {
+        let r = g.rnd();
+        let pv = g.vec(5);
+        out.push(Op::SynDivRoots(pv.clone(), g.nzvec(4))); // m = len - 1
+        out.push(Op::SynDivRoots(g.vec(8), g.nzvec(7)));
+        out.push(Op::SynDivRoots(pv.clone(), vec![0, r]));
+        out.push(Op::SynDivRoots(pv.clone(), vec![r, 0]));
+        out.push(Op::SynDivRoots(pv.clone(), vec![0, 0]));
+        out.push(Op::SynDivRoots(pv.clone(), vec![0]));
+        out.push(Op::SynDivRoots(pv.clone(), vec![r, r, r]));
+        let d = g.roots_poly(&[r, 0, r]);
+        let s = g.vec(4);
+        out.push(Op::SynDivRoots(umul(&s, &d, p), vec![r, 0, r]));
+        out.push(Op::SynDivRoots(pv.clone(), vec![])); // panic: no roots
+        out.push(Op::SynDivRoots(pv.clone(), g.nzvec(5))); // panic: m = len
+        out.push(Op::SynDivRoots(pv.clone(), g.nzvec(6))); // panic: m = len + 1
+        out.push(Op::SynDivRoots(vec![], vec![r])); // panic
+        out.push(Op::SynDivRoots(vec![], vec![])); // panic
+        out.push(Op::SynDivRoots(g.shape(6, ALL, 0), vec![r, 1]));
+    }
+    // ---- batch_inversion
+    let nzc = |g: &mut G, i: usize| match i % 5 {
+        0 => 1,
+        1 => p - 1,
+        4 => 2,
+        _ => g.rnd(),
+    };
+    let mut cnt = 0usize;
+    let mut masked = |g: &mut G, l: usize, zero: &dyn Fn(usize) -> bool, out: &mut Vec<Op>| {
+        let v: V = (0..l)
+            .map(|i| {
+                cnt += 1;
+                if zero(i) { 0 } else { nzc(g, cnt) }
+            })
+            .collect();
+        out.push(Op::BatchInv(v));
+    };
+    out.push(Op::BatchInv(vec![]));
+    for l in 1..=4usize {
+        if !top && l == 4 {
+            for mask in [0u32, 1, 8, 9, 6, 15] {
+                masked(g, l, &|i| mask >> i & 1 == 1, out);
+            }
+            continue;
+        }
+        for mask in 0..(1u32 << l) {
+            masked(g, l, &|i| mask >> i & 1 == 1, out);
+        }
+    }
+    for z in 0..8usize {
+        masked(g, 8, &|i| i == z, out);
+    }
+    masked(g, 8, &|i| i == 0 || i == 7, out);
+    masked(g, 8, &|_| true, out);
+    masked(g, 8, &|_| false, out);
+    for (j, l) in [63usize, 64, 65].into_iter().enumerate() {
+        let rp = g.r.below(l as u64) as usize;
+        masked(g, l, &|i| [i == 0, i + 1 == l, i == rp][j], out);
+        if full {
+            masked(g, l, &|i| i == 0 || i + 1 == l || i == rp, out);
+        }
+    }
+    // ---- get_power_series / get_power_series_with_offset
+    for (i, n) in [0usize, 1, 2, 3, 7, 8, 9].into_iter().enumerate() {
+        for (j, b) in [0, 1, 2, p - 1, g.rnd()].into_iter().enumerate() {
+            if full || (i + j) % 2 == 0 {
+                out.push(Op::Pow(b, n));
+            }
+        }
+    }
+    for n in [63usize, 64, 65] {
+        out.push(Op::Pow(p - 1, n));
+        out.push(Op::Pow(g.rnd(), n));
+    }
+    let bs: [(u128, u128); 7] =
+        [(0, 1), (1, 0), (2, 1), (p - 1, g.rnd()), (g.rnd(), g.rnd()), (g.rnd(), 0), (g.rnd(), 1)];
+    for (i, n) in [0usize, 1, 2, 3, 8, 9, 64].into_iter().enumerate() {
+        for j in 0..(if full { 3 } else { 2 }) {
+            let (b, s) = bs[(3 * i + j) % 7];
+            out.push(Op::PowOff(b, s, n));
+        }
+    }
+    out.push(Op::PowOff(0, 0, 3));
+    // ---- add_in_place / mul_acc
+    for (la, lb) in [(0usize, 0usize), (1, 1), (3, 3), (8, 8), (65, 65), (0, 1), (1, 0), (3, 4), (8, 7)] {
+        let (a, b) = (g.vec(la), g.vec(lb));
+        out.push(Op::AddInPlace(a.clone(), b.clone()));
+        for (j, c) in [0, 1, g.rnd()].into_iter().enumerate() {
+            if la == lb || j == 2 {
+                out.push(Op::MulAcc(a.clone(), b.clone(), c));
+            }
+        }
+    }
+    // ---- poly_from_roots
+    for n in 0..=9usize {
+        out.push(Op::FromRoots(g.vec(n)));
+    }
+    {
+        let (r, s) = (g.rnd(), g.rnd());
+        for v in [vec![0], vec![0, r], vec![r, 0, s], vec![0, 0], vec![r, r], vec![r, s, r], vec![1], vec![p - 1, 1]] {
+            out.push(Op::FromRoots(v));
+        }
+        if full {
+            out.push(Op::FromRoots(g.distinct(64, Some(17))));
+        }
+    }
+    // ---- interpolate
+    for n in [0usize, 1, 2, 3, 7, 8, 9, 16] {
+        let xs = g.distinct(n, None);
+        let ys = g.vec(n);
+        out.push(Op::Interp(xs.clone(), ys.clone(), false));
+        if n == 1 || n == 3 || n == 8 {
+            out.push(Op::Interp(xs, ys, true));
+        }
+    }
+    if full {
+        let xs = g.distinct(33, Some(20));
+        let ys = g.vec(33);
+        out.push(Op::Interp(xs, ys, false));
+    }
+    if thorough && full {
+        let xs = g.distinct(65, Some(64));
+        let ys = g.vec(65);
+        out.push(Op::Interp(xs, ys, true));
+    }
+    for n in [3usize, 8] {
+        for (j, pos) in [0, n / 2, n - 1].into_iter().enumerate() {
+            let xs = g.distinct(n, Some(pos));
+            let ys = g.vec(n);
+            out.push(Op::Interp(xs, ys, j % 2 == 1));
+        }
+    }
+    out.push(Op::Interp(vec![0], vec![g.rnd()], false));
+    out.push(Op::Interp(vec![0, g.rnd()], g.vec(2), false));
+    {
+        // duplicate xs: no panic; the output is not an interpolant but model and code must agree
+        let (r, s) = (g.rnd(), g.rnd());
+        out.push(Op::Interp(vec![r, r], g.vec(2), false));
+        out.push(Op::Interp(vec![r, s, r], g.vec(3), true));
+        let mut xs = g.distinct(8, None);
+        xs[5] = xs[2];
+        out.push(Op::Interp(xs, g.vec(8), false));
+        out.push(Op::Interp(vec![0, 0], g.vec(2), false));
+        // ys all zero
+        out.push(Op::Interp(g.distinct(3, None), vec![0; 3], false));
+        out.push(Op::Interp(g.distinct(8, Some(3)), vec![0; 8], true));
+        // ys on a low-degree polynomial: remove_leading_zeros matters
+        for (n, deg) in [(8usize, 2usize), (3, 0), (16, 5)] {
+            let xs = g.distinct(n, if n == 8 { Some(0) } else { None });
+            let c = g.shape(deg + 1, 0, 0);
+            let ys: V = xs.iter().map(|x| ueval(&c, *x, p)).collect();
+            if n != 16 {
+                out.push(Op::Interp(xs.clone(), ys.clone(), false));
+            }
+            out.push(Op::Interp(xs, ys, true));
+        }
+        // length mismatch, both directions
+        for (nx, ny, rlz) in [(3usize, 2usize, false), (2, 3, false), (0, 1, false), (1, 0, false), (8, 9, true), (9, 8, true)] {
+            out.push(Op::Interp(g.distinct(nx, None), g.vec(ny), rlz));
+        }
+    }
+    // ---- interpolate_batch
+    for bn in [1usize, 2, 3, 4, 8] {
+        for nx in 0..4usize {
+            if !top && nx == 3 {
+                continue;
+            }
+            let xs: V = (0..nx).flat_map(|_| g.distinct(bn, None)).collect();
+            let ys = g.vec(nx * bn);
+            out.push(Op::InterpBatch(bn, nx, nx, xs, ys));
+        }
+    }
+    for nx in 0..3usize {
+        out.push(Op::InterpBatch(0, nx, nx, vec![], vec![])); // N = 0: panics once `len % N` is reached
+    }
+    out.push(Op::InterpBatch(0, 1, 0, vec![], vec![]));
+    {
+        let r = g.rnd();
+        out.push(Op::InterpBatch(2, 1, 1, vec![0, r], g.vec(2)));
+        let xs: V = g.distinct(4, Some(3)).into_iter().chain(g.distinct(4, Some(0))).collect();
+        out.push(Op::InterpBatch(4, 2, 2, xs, g.vec(8)));
+        out.push(Op::InterpBatch(1, 2, 2, vec![0, r], g.vec(2)));
+        out.push(Op::InterpBatch(2, 1, 1, vec![r, r], g.vec(2))); // duplicates
+        let mut xs = g.distinct(4, None);
+        xs[3] = xs[1];
+        out.push(Op::InterpBatch(4, 1, 1, xs, g.vec(4)));
+        // nx != ny: debug build panics; release: ys shorter panics by index, ys longer is accepted
+        for (bn, nx, ny) in [(2usize, 1usize, 0usize), (2, 1, 2), (3, 2, 1), (1, 0, 1), (4, 2, 3), (8, 1, 0)] {
+            let xs: V = (0..nx).flat_map(|_| g.distinct(bn, None)).collect();
+            out.push(Op::InterpBatch(bn, nx, ny, xs, g.vec(ny * bn)));
+        }
+    }
+    // ---- long inputs, linear-time operations only (few: the extracted model computes on inductive Z)
+    let longs: &[usize] = if full { &[1023, 1024, 1025] } else { &[1025] };
+    for (i, &l) in longs.iter().enumerate() {
+        let hz = [0usize, 1, 2][i % 3];
+        let v = g.shape(l, hz, i % 2);
+        match i % 3 {
+            0 => {
+                out.push(Op::Eval(v.clone(), g.rnd()));
+                out.push(Op::DegreeOf(v.clone()));
+                out.push(Op::BatchInv(g.shape(l, 1, 1)));
+                out.push(Op::Pow(g.rnd(), l));
+            }
+            1 => {
+                out.push(Op::Rlz(v.clone()));
+                out.push(Op::Add(v.clone(), g.vec(l + 1)));
+                out.push(Op::SynDiv(v.clone(), 3, 1));
+                out.push(Op::PowOff(g.rnd(), g.rnd(), l));
+                out.push(Op::MulAcc(v.clone(), g.vec(l), g.rnd()));
+            }
+            _ => {
+                out.push(Op::Sub(g.vec(l - 2), v.clone()));
+                out.push(Op::MulByScalar(v.clone(), g.rnd()));
+                out.push(Op::SynDivInPlace(v.clone(), 1, g.rnd()));
+                out.push(Op::AddInPlace(v.clone(), g.vec(l)));
+                out.push(Op::Pow(2, l));
+            }
+        }
+    }
+    if !full {
+        let v = g.vec(1025);
+        out.push(Op::SynDivInPlace(v.clone(), 2, g.rnd()));
+        out.push(Op::Add(v, g.vec(1023)));
+    } else {
+        let mut v = g.nzvec(1024);
+        v[0] = 0;
+        v[1023] = 0;
+        v[500] = 0;
+        out.push(Op::BatchInv(v));
+        out.push(Op::SynDiv(g.vec(1025), 4, g.rnd()));
+    }
+}
+
+fn small_len(g: &mut G) -> usize {
+    match g.r.below(20) {
+        0 => 64,
+        1 => 0,
+        _ => g.r.below(21) as usize,
+    }
+}
+fn rshape(g: &mut G, l: usize) -> V {
+    let hz = match g.r.below(8) {
+        0 => 1,
+        1 => 2,
+        2 => ALL,
+        _ => 0,
+    };
+    let lz = g.r.below(6).saturating_sub(3) as usize;
+    g.shape(l, hz, lz)
+}
+
+/// mostly-valid structured stream
+fn random_op(g: &mut G) -> Op {
+    let p = g.p;
+    let l = small_len(g);
+    match g.r.below(24) {
+        0 => Op::Eval(rshape(g, l), g.elem()),
+        1 => {
+            let n = g.r.below(6) as usize;
+            Op::EvalMany(rshape(g, l), g.vec(n))
+        }
+        2 => {
+            let lb = if g.r.chance(1, 2) { l } else { small_len(g) };
+            Op::Add(rshape(g, l), rshape(g, lb))
+        }
+        3 => {
+            let lb = if g.r.chance(1, 2) { l } else { small_len(g) };
+            Op::Sub(rshape(g, l), rshape(g, lb))
+        }
+        4 | 5 => {
+            let (la, lb) = (g.r.below(13) as usize, g.r.below(13) as usize);
+            Op::Mul(rshape(g, la), rshape(g, lb))
+        }
+        6 => Op::MulByScalar(rshape(g, l), g.elem()),
+        7 | 8 => {
+            let da = g.r.below(21) as usize;
+            let db = g.r.below(da as u64 + 1) as usize;
+            let (pa, pb) = (g.r.below(3) as usize, g.r.below(3) as usize);
+            let exact = g.r.chance(1, 2);
+            let (a, b) = g.div_pair(da, db, pa, pb, exact);
+            Op::Div(a, b)
+        }
+        9 | 10 => {
+            let a = 1 + g.r.below(7) as usize;
+            let len = a + 1 + g.r.below(16) as usize;
+            let b = if g.r.chance(1, 4) { 1 } else { g.nz() };
+            let pv = if g.r.chance(1, 2) {
+                let s = g.vec(len - a);
+                umul(&s, &g.xa_minus_b(a, b), p)
+            } else {
+                rshape(g, len)
+            };
+            if g.r.chance(1, 2) { Op::SynDiv(pv, a, b) } else { Op::SynDivInPlace(pv, a, b) }
+        }
+        11 => {
+            let len = 2 + g.r.below(16) as usize;
+            let m = 1 + g.r.below(len as u64 - 1) as usize;
+            let roots = if g.r.chance(1, 4) { g.vec(m) } else { g.nzvec(m) };
+            let pv = if g.r.chance(1, 2) {
+                let s = g.vec(len - m);
+                umul(&s, &g.roots_poly(&roots), p)
+            } else {
+                rshape(g, len)
+            };
+            Op::SynDivRoots(pv, roots)
+        }
+        12 => Op::DegreeOf(rshape(g, l)),
+        13 => Op::Rlz(rshape(g, l)),
+        14 => {
+            let n = g.r.below(13) as usize;
+            Op::FromRoots(g.vec(n))
+        }
+        15 | 16 => {
+            let n = g.r.below(13) as usize;
+            let z = if g.r.chance(1, 3) { Some(g.r.below(n.max(1) as u64) as usize) } else { None };
+            let mut xs = g.distinct(n, z);
+            if n >= 2 && g.r.chance(1, 10) {
+                xs[0] = xs[n - 1];
+            }
+            let ys = if g.r.chance(1, 3) {
+                let lc = 1 + g.r.below(n.max(1) as u64) as usize;
+                let c = g.vec(lc);
+                xs.iter().map(|x| ueval(&c, *x, p)).collect()
+            } else {
+                g.vec(n)
+            };
+            Op::Interp(xs, ys, g.r.chance(1, 2))
+        }
+        17 => {
+            let bn = [1usize, 2, 3, 4, 8][g.r.below(5) as usize];
+            let nx = g.r.below(4) as usize;
+            let mut xs: V = Vec::new();
+            for _ in 0..nx {
+                let z = if g.r.chance(1, 4) { Some(g.r.below(bn as u64) as usize) } else { None };
+                xs.extend(g.distinct(bn, z));
+            }
+            Op::InterpBatch(bn, nx, nx, xs, g.vec(nx * bn))
+        }
+        18 => Op::Pow(g.elem(), l),
+        19 => Op::PowOff(g.elem(), g.elem(), l),
+        20 => Op::AddInPlace(rshape(g, l), rshape(g, l)),
+        21 => Op::MulAcc(rshape(g, l), rshape(g, l), g.elem()),
+        _ => {
+            let l = if l == 64 { 64 } else { l.min(12) };
+            let mut v = g.nzvec(l);
+            for x in v.iter_mut() {
+                if g.r.chance(1, 5) {
+                    *x = 0;
+                }
+            }
+            Op::BatchInv(v)
+        }
+    }
+}
+
+/// malformed stream: inputs from the rejected classes (and their neighbours)
+fn malformed_op(g: &mut G) -> Op {
+    let l = 1 + g.r.below(10) as usize;
+    match g.r.below(12) {
+        0 => Op::Div(rshape(g, l), vec![0; g.r.below(4) as usize]),
+        1 => {
+            let lb = l + 1 + g.r.below(3) as usize;
+            Op::Div(rshape(g, l), g.vec(lb))
+        }
+        2 => {
+            let hz = g.r.below(3) as usize;
+            Op::Div(g.shape(l + 2, 2, 0), g.shape(l + 2, hz, 0))
+        }
+        3 => {
+            let a = [0, l - 1, l, l + 1][g.r.below(4) as usize];
+            if g.r.chance(1, 2) { Op::SynDiv(g.vec(l), a, g.nz()) } else { Op::SynDivInPlace(g.vec(l), a, g.nz()) }
+        }
+        4 => {
+            let a = 1 + g.r.below(l as u64) as usize;
+            if g.r.chance(1, 2) { Op::SynDiv(g.vec(l + 1), a, 0) } else { Op::SynDivInPlace(g.vec(l + 1), a, 0) }
+        }
+        5 => {
+            let m = [0, l - 1, l, l + 1][g.r.below(4) as usize];
+            Op::SynDivRoots(g.vec(l), g.vec(m))
+        }
+        6 => {
+            let lb = l - 1 + 2 * g.r.below(2) as usize;
+            Op::AddInPlace(g.vec(l), g.vec(lb))
+        }
+        7 => {
+            let lb = l - 1 + 2 * g.r.below(2) as usize;
+            Op::MulAcc(g.vec(l), g.vec(lb), g.elem())
+        }
+        8 => {
+            let ny = l - 1 + 2 * g.r.below(2) as usize;
+            Op::Interp(g.distinct(l, None), g.vec(ny), g.r.chance(1, 2))
+        }
+        9 => {
+            let bn = [0usize, 1, 2, 3, 4, 8][g.r.below(6) as usize];
+            let nx = g.r.below(3) as usize;
+            let ny = g.r.below(4) as usize;
+            let xs: V = (0..nx).flat_map(|_| g.distinct(bn, None)).collect();
+            Op::InterpBatch(bn, nx, ny, xs, g.vec(ny * bn))
+        }
+        10 => {
+            let lb = g.r.below(4) as usize;
+            Op::Mul(vec![], g.vec(lb))
+        }
+        _ => {
+            let (lb, hz) = (1 + g.r.below(3) as usize, g.r.below(2) as usize);
+            Op::Div(vec![], g.shape(lb, hz, 0))
+        }
+    }
+}
+
+struct Dist {
+    ops: BTreeMap<&'static str, usize>,
+    panics: usize,
+    total: usize,
+}
+
+fn emit_case<F: BF>(op: &Op, dist: &mut Dist) {
+    let res = exec::<F>(op);
+    *dist.ops.entry(op.name()).or_insert(0) += 1;
+    dist.total += 1;
+    if res == "panic" {
+        dist.panics += 1;
+    }
+    println!("{} {} {} => {}", F::NAME, op.name(), op.args(), res);
+}
+
+fn corr(seed: u64, n: usize) {
+    let thorough = n >= 10000;
+    let mut dist = Dist { ops: BTreeMap::new(), panics: 0, total: 0 };
+    let mut g64 = G { r: Rng::new(seed ^ 0x64), p: M64 };
+    let mut g62 = G { r: Rng::new(seed ^ 0x62_0000), p: M62 };
+    let mut g128 = G { r: Rng::new(seed ^ 0x128_0000_0000), p: M128 };
+    let mut ops = Vec::new();
+    boundary(&mut g64, 2, thorough, &mut ops);
+    for op in &ops {
+        emit_case::<f64::BaseElement>(op, &mut dist);
+    }
+    ops.clear();
+    boundary(&mut g62, 1, thorough, &mut ops);
+    for op in &ops {
+        emit_case::<f62::BaseElement>(op, &mut dist);
+    }
+    ops.clear();
+    boundary(&mut g128, 0, thorough, &mut ops);
+    for op in &ops {
+        emit_case::<f128::BaseElement>(op, &mut dist);
+    }
+    let nb = dist.total;
+    // random structured stream (4/5 of the remaining budget), then malformed stream
+    let rest = n.saturating_sub(nb);
+    let mut sel = Rng::new(seed ^ 0xC20);
+    for i in 0..rest {
+        let malformed = i >= rest - rest / 5;
+        let f = sel.below(5);
+        let g = match f {
+            0 | 1 => &mut g64,
+            2 | 3 => &mut g62,
+            _ => &mut g128,
+        };
+        let op = if malformed { malformed_op(g) } else { random_op(g) };
+        match f {
+            0 | 1 => emit_case::<f64::BaseElement>(&op, &mut dist),
+            2 | 3 => emit_case::<f62::BaseElement>(&op, &mut dist),
+            _ => emit_case::<f128::BaseElement>(&op, &mut dist),
+        }
+    }
+    let mut s = String::from("dist");
+    for (k, v) in &dist.ops {
+        s.push_str(&format!(" {}={}", k, v));
+    }
+    s.push_str(&format!(" panic={} boundary={} total={}", dist.panics, nb, dist.total));
+    eprintln!("{}", s);
+}
+
+// ================================================================================================
+// falsifier
+// ================================================================================================
+//FALSIFIER
+fn falsify(_seed: u64, _n: usize) {
+    let _ = (jstr(""), |_: Progress| (), CubeExtension::<f64::BaseElement>::ZERO, QuadExtension::<f64::BaseElement>::ZERO);
+    let _ = watchdog::run(std::time::Duration::from_secs(1), |_| (), |_| ());
+    fn _x<B: FieldElement, E: ExtensionOf<B>>() {}
+}
+
 fn main() {
     silence_panics();
-    let e = |v: u128| B::new(v);
-    println!("interp x0=0: {:?}", catch(|| polynom::interpolate(&[e(0), e(1)], &[e(5), e(7)], false)));
-    println!("interp x0=2: {:?}", catch(|| polynom::interpolate(&[e(2), e(1)], &[e(5), e(7)], false)));
-    println!("interp_batch x0=0: {:?}", catch(|| polynom::interpolate_batch(&[[e(0), e(1)]], &[[e(5), e(7)]])));
-    println!("mul [] []: {:?}", catch(|| polynom::mul::<B>(&[], &[])));
-    println!("mul [] [1]: {:?}", catch(|| polynom::mul::<B>(&[], &[e(1)])));
-    println!("mul [] [1,2]: {:?}", catch(|| polynom::mul::<B>(&[], &[e(1), e(2)])));
-    println!("div [] [3]: {:?}", catch(|| polynom::div::<B>(&[], &[e(3)])));
-    println!("div [0] [3]: {:?}", catch(|| polynom::div::<B>(&[e(0)], &[e(3)])));
-    println!("pow n=0: {:?}", catch(|| get_power_series(e(3), 0)));
-    println!("pow n=1: {:?}", catch(|| get_power_series(e(3), 1)));
-    println!("binv []: {:?}", catch(|| batch_inversion::<B>(&[])));
-    println!("interp [] []: {:?}", catch(|| polynom::interpolate::<B>(&[], &[], false)));
-    println!("interp 1pt: {:?}", catch(|| polynom::interpolate::<B>(&[e(4)], &[e(9)], false)));
+    let args: Vec<String> = std::env::args().collect();
+    let mode = args.get(1).map(|s| s.as_str()).unwrap_or("corr");
+    let seed: u64 = args.get(2).and_then(|s| s.parse().ok()).unwrap_or(1);
+    let n: usize = args.get(3).and_then(|s| s.parse().ok()).unwrap_or(1000);
+    match mode {
+        "corr" => corr(seed, n),
+        "falsify" => falsify(seed, n),
+        _ => {
+            eprintln!("usage: c20 corr|falsify <seed> <n>");
+            std::process::exit(2);
+        }
+    }
 }
